@@ -260,6 +260,8 @@ class Ctx:
     def violation(self, obj, no_input=False):
         obj = dict(obj)
         obj["property"] = self.pid
+        # every random choice of a run derives from (seed, tier): recording them makes the replay exact
+        obj["_run"] = {"seed": self.seed, "tier": self.tier}
         p = self.replay_path(obj)
         self.violations.append((p, " no-failing-input-found" if no_input else ""))
 
